@@ -1,5 +1,5 @@
 (* Proofs/ArithProofs.v — proofs about Expand/ArithSyntax.v and Expand/Arith.v (C20). *)
-From Verif Require Import Base.Str Expand.ArithSyntax Expand.Arith.
+From Verif Require Import Base.Str Expand.ArithSyntax Expand.Arith Proofs.ArithSyntaxProofs.
 From Coq Require Import ZifyN ZifyNat ZifyBool.
 Open Scope Z_scope.
 
@@ -12,3 +12,83 @@ Lemma eval_matches_refuted :
   exists e en, wf e = true /\ no_index e = true /\
     snd (bash_eval e en) = BV 3 /\ snd (arithm e en) = Ok 0.
 Proof. exists kf_expr, kf_env. vm_compute. repeat split. Qed.
+
+(* ---------------------------------------------------------------- no panic *)
+
+Lemma bin_arit_no_panic o x y : bin_arit o x y <> Panic.
+Proof. destruct o; simpl; try discriminate; try (destruct (y =? 0); discriminate); destruct (y <? 0); discriminate. Qed.
+
+Lemma assgn_op_no_panic o x y : assgn_op o x y <> Panic.
+Proof. destruct o; simpl; try discriminate; destruct (y =? 0); discriminate. Qed.
+
+Lemma no_panic : forall e en, wf e = true -> snd (arithm e en) <> Panic.
+Proof.
+  induction e as [e IH] using expr_size_ind. intros en Hwf.
+  destruct e as [s|n i|x|o post x|o x y]; simpl in *.
+  - discriminate.
+  - discriminate.
+  - apply IH; [lia | assumption].
+  - destruct o; simpl in *;
+      try (apply andb_prop in Hwf; destruct Hwf as [Hp Hw];
+           pose proof (IH x ltac:(lia) en Hw) as Hx;
+           destruct (arithm x en) as [en1 [v|c|]]; simpl in *; [discriminate|discriminate|congruence]).
+    + apply andb_prop in Hwf; destruct Hwf as [Hn _]. destruct x; simpl in *; try discriminate.
+    + apply andb_prop in Hwf; destruct Hwf as [Hn _]. destruct x; simpl in *; try discriminate.
+  - destruct (is_assign o) eqn:Ha.
+    + assert (Hw : name_shape x = true /\ wf y = true).
+      { destruct o; simpl in *; try discriminate;
+          apply andb_prop in Hwf; destruct Hwf as [Hwf Hy]; apply andb_prop in Hwf; destruct Hwf; auto. }
+      destruct Hw as [Hn Hy].
+      destruct x; simpl in *; try discriminate;
+        pose proof (IH y ltac:(lia) en Hy) as Hyy;
+        destruct (arithm y en) as [en1 [v|c|]]; simpl in *; try discriminate; try congruence;
+        match goal with |- context [assgn_op o ?a ?b] =>
+          pose proof (assgn_op_no_panic o a b); destruct (assgn_op o a b) end; simpl; congruence.
+    + destruct o; simpl in *; try discriminate;
+      try (apply andb_prop in Hwf; destruct Hwf as [Hx Hy];
+           pose proof (IH x ltac:(lia) en Hx) as Hxx;
+           destruct (arithm x en) as [en1 [l|c|]]; simpl in *; try discriminate; try congruence;
+           try (destruct (l =? 0); simpl; try discriminate);
+           pose proof (IH y ltac:(lia) en1 Hy) as Hyy;
+           destruct (arithm y en1) as [en2 [r|c|]]; simpl in *; try discriminate; try congruence;
+           try apply bin_arit_no_panic; try (destruct (r =? 0); discriminate); try (destruct (r <? 0); discriminate)).
+      (* ternary *)
+      destruct y as [| | | |o2 a b]; try discriminate. destruct o2; try discriminate.
+      apply andb_prop in Hwf; destruct Hwf as [Hwf Hb]; apply andb_prop in Hwf; destruct Hwf as [Hx Ha2].
+      pose proof (IH x ltac:(lia) en Hx) as Hxx.
+      destruct (arithm x en) as [en1 [c|c|]]; simpl in *; try discriminate; try congruence.
+      destruct (c =? 0); apply IH; simpl; try lia; assumption.
+Qed.
+
+(* ---------------------------------------------------------------- error cases *)
+
+(* division/modulo by zero and negative exponents: errors in the implementation model *)
+Lemma div_zero_impl : forall o x y en en1 en2 l,
+  o = Quo \/ o = Rem -> arithm x en = (en1, Ok l) -> arithm y en1 = (en2, Ok 0) ->
+  arithm (Bin o x y) en = (en2, Err EDivZero).
+Proof. intros o x y en en1 en2 l [->| ->] Hx Hy; simpl; rewrite Hx, Hy; reflexivity. Qed.
+
+Lemma neg_exp_impl : forall x y en en1 en2 l r,
+  arithm x en = (en1, Ok l) -> arithm y en1 = (en2, Ok r) -> r < 0 ->
+  arithm (Bin Pow x y) en = (en2, Err ENegExp).
+Proof. intros. simpl. rewrite H, H0. simpl. apply Z.ltb_lt in H1. rewrite H1. reflexivity. Qed.
+
+Lemma div_zero_assign_impl : forall o name y en en1,
+  o = QuoAssgn \/ o = RemAssgn -> arithm y en = (en1, Ok 0) ->
+  arithm (Bin o (Word name) y) en = (en1, Err EDivZero).
+Proof. intros o name y en en1 [->| ->] Hy; simpl; rewrite Hy; reflexivity. Qed.
+
+Lemma div_zero_spec : forall var o x y en en1 en2 l,
+  o = Quo \/ o = Rem -> bash_step var x en = (en1, BV l) -> bash_step var y en1 = (en2, BV 0) ->
+  bash_step var (Bin o x y) en = (en2, BE EDivZero).
+Proof. intros var o x y en en1 en2 l [->| ->] Hx Hy; simpl; rewrite Hx, Hy; reflexivity. Qed.
+
+Lemma neg_exp_spec : forall var x y en en1 en2 l r,
+  bash_step var x en = (en1, BV l) -> bash_step var y en1 = (en2, BV r) -> r < 0 ->
+  bash_step var (Bin Pow x y) en = (en2, BE ENegExp).
+Proof. intros. simpl. rewrite H, H0. simpl. apply Z.ltb_lt in H1. rewrite H1. reflexivity. Qed.
+
+(* and they are not errors when short-circuited away, in both *)
+Lemma short_circuit_impl : forall x y en en1,
+  arithm x en = (en1, Ok 0) -> arithm (Bin AndArit x y) en = (en1, Ok 0).
+Proof. intros. simpl. rewrite H. reflexivity. Qed.
